@@ -542,10 +542,8 @@ impl Compress {
             if label_len & 0xc0 == 0xc0 {
                 panic!("copy_compressed_name() called on an already compressed name");
             }
-            if let Some(ref_offset) =
-                dict.insert(&packet[offset..final_offset], base_offset + offset)
-            {
-                assert!(offset < 65536 >> 2); // Checked in dict.insert()
+            if let Some(ref_offset) = dict.insert(&packet[offset..final_offset], compressed.len()) {
+                assert!(ref_offset < 65536 >> 2); // Checked in dict.insert()
                 compressed.push((ref_offset >> 8) as u8 | 0xc0);
                 compressed.push((ref_offset & 0xff) as u8);
                 break;
